@@ -442,6 +442,8 @@ def belongs(ob, prop, unit):
     """does this obligation count for property `prop`?  tagged -> only the tagged properties;
     untagged (generic safety, frame, loop obligations) -> every property the unit serves."""
     tagged = sorted(set(t.split(".")[0] for t in ob["tags"]))
+    if os.environ.get("VERIF_ALLTAGS"):      # unit development: judge every obligation of the unit whatever property it is tagged with
+        return True
     if tagged:
         return prop in tagged
     return prop in unit["props"]
